@@ -415,6 +415,15 @@ def gen_case(ch: Chooser, excl=()):
                 if q["uses"]:
                     consumers.append(("innerproc", q, [m["name"], p["name"], q["name"]], True))
                     b.feats.add("use-in-internal-procedure")
+                    if "namelist_dummy" not in b.excl and ch.bool(1, 3):
+                        # a namelist group naming a dummy argument (written with a capital letter where it is declared)
+                        da, nl = b.fresh("Darg"), b.fresh("nl")
+                        q["args"].append(da)
+                        q["decls"].append(_var(da, intent="inout"))
+                        q["decls"].append({"d": "namelist", "name": nl, "vars": [da.lower()], "doc": None})
+                        b.refs.append({"scope": [x.lower() for x in (m["name"], p["name"], q["name"])], "ifbody": None,
+                                       "slot": "namelist", "at": nl, "name": da.lower(), "expect": None})
+                        b.feats.add("namelist-of-dummy")
     # (c) program, (d) external subroutine
     for kind in ("program", "subroutine"):
         if ch.bool(2, 3):
